@@ -505,7 +505,10 @@ class SourceGenerator(NodeVisitor):
             self.visit(arg)
         for keyword in node.keywords:
             write_comma()
-            self.write(keyword.arg + "=")
+            if keyword.arg is None:
+                self.write("**")
+            else:
+                self.write(keyword.arg + "=")
             self.visit(keyword.value)
         if getattr(node, "starargs", None):
             write_comma()
